@@ -30,6 +30,7 @@ import (
 	"os"
 	"sort"
 	"sync"
+	"time"
 
 	"filippo.io/age/zverif/mon"
 	"filippo.io/age/zverif/refage"
@@ -54,6 +55,7 @@ func main() {
 		"checksum algebra: the same HRP+payload re-checksummed for the listed other remainders (Bech32m, 0, 2, 3, 0x3fffffff, every single-bit change of 1, six other ways of feeding the HRP into the checksum), and every 1-4 position substitution pattern that moves a valid string onto such a remainder (found by a meet-in-the-middle search over pair syndromes; counts per target under coverage.algebraic_search); patterns inside the HRP are not searched",
 		"exhaustive multi-substitution stage: all double substitutions over the full substitute alphabet (printable ASCII, non-ASCII/control set, fullwidth) within the last 8 characters, within the first 4 data characters and across the separator, out-of-alphabet at a checksum position x in-alphabet anywhere after the separator, and all triples of the last 3 characters, on base strings with l, q and p among their last six characters (listed in coverage); doubles elsewhere are sampled only",
 		"arguments-left-alone oracle: byte-slice arguments are sub-slices of sentinel-filled arenas (payload lengths 0-40; spare capacity 0, 1, 3, 4, 5, 64, rest of arena), strings are substrings of larger strings; the arena must be unchanged, adjacent payloads and prefix-then-whole records must print and parse back exactly, returned slices must not be shared or change later, repeated calls must agree",
+		"routes stage: decorated spellings (white space, CR, NBSP, U+3000, U+0085, U+2003, zero-width space, NUL, BOM, case) of valid native strings through the real cmd/age and age-keygen by -r, -R/-i files, -R -/-i - with standard input a pipe and a terminal, and age-keygen -y; not demanded: the line format of key files (LF with one CR removed, empty and # lines skipped, the terminal's CR->LF); plugin strings are not run through the tool (no plugin binary)",
 		"plugin names: exhaustive to length 2 (quick) / 3 (thorough) over the allowed set plus / \\ : space; payloads 0-64 bytes",
 	}
 	r.MinEvals, r.MinDistinct = 200000, 3000
@@ -85,7 +87,25 @@ func main() {
 	jobs = append(jobs, jobsAlgebraicSubst(bases)...)
 	jobs = append(jobs, jobsTail()...)
 	jobs = append(jobs, jobsPurity()...)
-	r.Set("jobs", len(jobs))
+	// the routes stage runs processes (mostly waiting): it gets workers of its
+	// own next to the CPU-bound jobs
+	routeJobs := jobsRoutes()
+	routesDone := make(chan float64, 1)
+	go func() {
+		t0 := time.Now()
+		mon.ParN(8, len(routeJobs), func(i int) {
+			b := newBatch()
+			defer b.flush()
+			defer func() {
+				if p := recover(); p != nil {
+					r.Inconclusive("harness panic in routes job %d: %v", i, p)
+				}
+			}()
+			routeJobs[i](b)
+		})
+		routesDone <- time.Since(t0).Seconds()
+	}()
+	r.Set("jobs", len(jobs)+len(routeJobs))
 	mon.Par(len(jobs), func(i int) {
 		b := newBatch()
 		defer b.flush()
@@ -98,6 +118,8 @@ func main() {
 		jobs[i](b)
 	})
 
+	r.Set("routes_stage_wall_s", float64(int(<-routesDone*10))/10)
+
 	// sanity of the workload itself: F4-style inputs need a 'K' in the data part
 	if agg.get("workload", "identity base strings with K in the data part") == 0 {
 		r.Inconclusive("no upper-case base string carries a K in its data part: the KELVIN SIGN case was never exercised")
@@ -105,6 +127,7 @@ func main() {
 	finishAlgebra()
 	finishTail()
 	finishPurity()
+	finishRoutes()
 	flushViolations()
 	agg.publish(r)
 	ex := false
